@@ -46,7 +46,7 @@ def run_history(n, divsup, acksup, en0, div0, ops, rxpadding=0, streaming=False,
         return "ok"
     chans = [dict(en=en0[i], typ=2, vdim=1, div=div0[i], mlen=0, name=b"c%d" % i) for i in range(n)]
     dev = refdev.RefDevice(chans, flags=(1 if divsup else 0) | (2 if acksup else 0), rxpadding=rxpadding,
-                           policy=policy, streaming=streaming)
+                           policy=policy, streaming=streaming, block_rx=True)
     h = NxscopeHandler(dev, Parser()) if high else CommHandler(dev, Parser())
     comm = h._comm if high else h
     fin, res = refdev.run_with_watchdog(h.connect, 20)
@@ -95,6 +95,8 @@ def run_history(n, divsup, acksup, en0, div0, ops, rxpadding=0, streaming=False,
     finally:
         refdev.run_with_watchdog(h.disconnect, 20)
         comm._thrd.stop_set()
+    if dev.misaligned:
+        out.append("misaligned-writes:%s" % ",".join("%d" % len(w) for w in dev.misaligned[:5]))
     return " / ".join(out)
 
 
